@@ -384,10 +384,24 @@ def r5_no_lost_wakeup(chk: Check):
         raise Undecided("no site registers a dependency with its origin and checks it (dependents.add / check)")
 
 
+def r7_release_wakes(chk: Check):
+    from . import c09
+
+    c09.r2_release_restores_and_notifies(chk)
+
+
+def r6_submit_cannot_die_early(chk: Check):
+    from . import c16
+
+    c16.r3_linking(chk)
+
+
 RULES = [
     ("R1", "final states are absorbing: may-set typestate of Job.state over aio_submit (await-atomic, effects of other writers at awaits) and over the any-time writer dependencychanged; only known writers store the state; exits of aio_submit are final", r1_absorbing),
     ("R2", "truthful mapping: DONE exactly when exit code == 0 (or, code unknown, success marker present); aio_start never returns None", r2_truthful),
     ("R3", "unfinished-job counter: every path of aio_registerJob returning None passes exactly one increment; aio_submit is scheduled only then; every live exit of aio_submit passes the single decrement followed by notify_all under the exit condition", r3_counter),
     ("R4", "waiters: Job.wait returns the aio_submit future whose result is job.state after the start loop; experiment.wait leaves only on exit mode or zero counters and waits on the notified condition", r4_waiters),
+    ("R6", "aio_submit does not die before its bookkeeping: the index link of a re-submitted job is replaced (is_symlink -> unlink -> symlink_to), not created blindly (= C16.R3)", r6_submit_cannot_die_early),
+    ("R7", "a token release re-checks every dependent unconditionally (= C09.R2): a notification is never dropped because of the target job's momentary state", r7_release_wakes),
     ("R5", "no lost wake-up: after an aborted start readiness is re-derived from job.unsatisfied before the next wait; dependencies are registered before their first check", r5_no_lost_wakeup),
 ]
